@@ -22,6 +22,9 @@ type c01Witness struct {
 	Strict bool
 	Client bool
 	Mod    func(*codegen.Configuration)
+	// MayRefuse: the document is one the generator may answer with an error (names that normalise alike); what it may
+	// not do is return a file that does not compile
+	MayRefuse bool
 }
 
 func wUnionOwnDisc(required, nullable bool) J {
@@ -155,6 +158,12 @@ func c01Witnesses() []c01Witness {
 				"additionalProperties": J{"type": "array", "items": J{"type": "object", "properties": J{"a": J{"type": "string"}}, "additionalProperties": J{"type": "integer"}}}},
 				"Tagged": J{"type": "object", "properties": J{"id": J{"type": "string"}},
 					"additionalProperties": J{"type": "array", "items": J{"type": "string", "enum": []interface{}{"x", "y"}}}}}})},
+		// operations whose identifiers coincide — two without operationId whose method and path give one default id
+		// (GET /a/b and GET /a-b), two whose operationIds differ in spelling only: an error, or code that compiles
+		{Name: "two-operations-one-default-id", FW: "chi", Client: true, MayRefuse: true,
+			Doc: wDoc(J{"/a/b": J{"get": J{"responses": J{"204": J{"description": "d"}}}}, "/a-b": J{"get": J{"responses": J{"204": J{"description": "d"}}}}}, nil)},
+		{Name: "two-operation-ids-normalising-alike", FW: "echo", Client: true, MayRefuse: true,
+			Doc: wDoc(J{"/x": J{"get": wOp("get-pet", J{})}, "/y": J{"get": wOp("getPet", J{})}}, nil)},
 		{Name: "leading-digit-schema-with-nested-map",
 			Doc: wDoc(J{}, J{"schemas": J{"1st": objWith(J{"count": J{"type": "object", "properties": J{"n": J{"type": "string"}}, "additionalProperties": J{"type": "integer"}}})}})},
 	}
@@ -226,6 +235,10 @@ func runWitnesses(ctx *Ctx) error {
 			}
 			if strings.Contains(string(out), "error formatting Go code") {
 				cls = "output-does-not-parse"
+			}
+			if w.MayRefuse && cls == "generate-error" {
+				ctx.Res.Count("witness:refused")
+				continue
 			}
 			ctx.Res.Violate("witness:"+w.Name+":"+cls, fmt.Sprintf("Generate on witness %s: %s", w.Name, first[:minInt(len(first), 200)]), replay)
 			continue
